@@ -777,4 +777,109 @@ example : (2 : Rat) ^ (-1022 : Int) ≤ 1 / 3 :=
   le_trans (z2_le (by norm_num)) (by norm_num : (2 : Rat) ^ (-2 : Int) ≤ 1 / 3)
 example : f64 (f64 (1 / 3) / 4) = f64 (1 / 3) / 4 := by decide +kernel
 
+/-! ### an upper bound for `f32sqrt` (no overflow of the L2 cost model) -/
+
+/-- the Newton loop only decreases -/
+theorem isqrtLoop_le (n : Nat) : ∀ fuel x, isqrtLoop n fuel x ≤ x
+  | 0, x => by unfold isqrtLoop; exact le_refl _
+  | fuel + 1, x => by
+    unfold isqrtLoop
+    split_ifs with h
+    · exact le_trans (isqrtLoop_le n fuel _) (le_of_lt h)
+    · exact le_refl _
+
+/-- `isqrt n ≤ 2·√n`: the start value `2^(⌊log2 n⌋/2 + 1)` has square `≤ 4·2^⌊log2 n⌋ ≤ 4n` and the
+loop only decreases (the sharp `isqrt n ^ 2 ≤ n` is validated by execution only) -/
+theorem isqrt_sq_le (n : Nat) : isqrt n * isqrt n ≤ 4 * n := by
+  unfold isqrt
+  split_ifs with h0
+  · omega
+  · have h1 := isqrtLoop_le n (n.log2 + 2) (2 ^ (n.log2 / 2 + 1))
+    have h2 : 2 ^ (n.log2 / 2 + 1) * 2 ^ (n.log2 / 2 + 1) ≤ 4 * 2 ^ n.log2 := by
+      have e : (4 : Nat) * 2 ^ n.log2 = 2 ^ (n.log2 + 2) := by rw [pow_add]; omega
+      rw [e, ← pow_add]
+      exact Nat.pow_le_pow_right (by norm_num) (by omega)
+    have h3 : 2 ^ n.log2 ≤ n := Nat.log2_self_le h0
+    calc isqrtLoop n (n.log2 + 2) (2 ^ (n.log2 / 2 + 1)) *
+          isqrtLoop n (n.log2 + 2) (2 ^ (n.log2 / 2 + 1))
+        ≤ 2 ^ (n.log2 / 2 + 1) * 2 ^ (n.log2 / 2 + 1) := Nat.mul_le_mul h1 h1
+      _ ≤ 4 * 2 ^ n.log2 := h2
+      _ ≤ 4 * n := Nat.mul_le_mul_left 4 h3
+
+theorem isqrt_floor_sq_le {t : Rat} (ht : 0 ≤ t) :
+    ((isqrt t.floor.toNat : Nat) : Rat) * ((isqrt t.floor.toNat : Nat) : Rat) ≤ 4 * t := by
+  have h := isqrt_sq_le t.floor.toNat
+  have h0 : (0 : Int) ≤ t.floor := Rat.le_floor_iff.mpr (by push_cast; exact ht)
+  have h1 : ((t.floor.toNat : Nat) : Int) = t.floor := Int.toNat_of_nonneg h0
+  have h2 : ((t.floor.toNat : Nat) : Rat) = ((t.floor : Int) : Rat) := by exact_mod_cast h1
+  have h3 : ((t.floor.toNat : Nat) : Rat) ≤ t := by rw [h2]; exact Rat.floor_le t
+  have h4 : ((isqrt t.floor.toNat * isqrt t.floor.toNat : Nat) : Rat) ≤
+      ((4 * t.floor.toNat : Nat) : Rat) := by exact_mod_cast h
+  push_cast at h4
+  linarith
+
+theorem sqrt_bound_aux {s u t q B : Rat} (hu : 0 < u) (hB : 0 < B) (hss : s * s ≤ 4 * t)
+    (htq : t * (u * u) = q) (huq : u * u ≤ q) (hqB : q ≤ B * B) : s * u ≤ 2 * B ∧ u ≤ B := by
+  constructor
+  · by_contra hn
+    have h1 : 2 * B < s * u := not_le.mp hn
+    have h2 : 2 * B * (2 * B) < s * u * (s * u) := mul_self_lt_mul_self (by linarith) h1
+    have h3 : s * s * (u * u) ≤ 4 * t * (u * u) :=
+      mul_le_mul_of_nonneg_right hss (le_of_lt (mul_pos hu hu))
+    have e1 : s * u * (s * u) = s * s * (u * u) := by ring
+    have e2 : 4 * t * (u * u) = 4 * q := by rw [← htq]; ring
+    have e3 : 2 * B * (2 * B) = 4 * (B * B) := by ring
+    rw [e1] at h2
+    rw [e2] at h3
+    rw [e3] at h2
+    linarith
+  · by_contra hn
+    have h1 : B < u := not_le.mp hn
+    have h2 : B * B < u * u := mul_self_lt_mul_self (le_of_lt hB) h1
+    linarith
+
+/-- **`sqrtf` of a value `≤ B²` is at most `8·B`** (crude: `isqrt ≤ 2√·`, the half added in the
+inexact branch is `≤ B/2` after scaling, and `f32' x ≤ 2x`; in fact the bound proved is `5·B`) -/
+theorem f32sqrt_le {q B : Rat} (hq : 0 ≤ q) (hB : 1 ≤ B) (hqB : q ≤ B * B) :
+    f32sqrt q ≤ 8 * B := by
+  have hB0 : 0 < B := by linarith
+  unfold f32sqrt
+  split_ifs with h0
+  · linarith
+  · dsimp only
+    have hq0 : 0 < q := not_le.mp h0
+    obtain ⟨b1, _⟩ := rat_bracket q hq0
+    simp only [pow2_zpow]
+    have hk2 : -(2 * sqrtScale q) ≤
+        (Nat.log2 q.num.natAbs : Int) - (Nat.log2 q.den : Int) - 1 := by
+      unfold sqrtScale; omega
+    generalize sqrtScale q = k at *
+    have hu : (0 : Rat) < (2 : Rat) ^ (-k) := z2_pos _
+    have euu : (2 : Rat) ^ (-k) * (2 : Rat) ^ (-k) = (2 : Rat) ^ (-(2 * k)) := by
+      rw [← z2_add]; congr 1; ring
+    have huq : (2 : Rat) ^ (-k) * (2 : Rat) ^ (-k) ≤ q := by
+      rw [euu]; exact le_trans (z2_le hk2) (le_of_lt b1)
+    have htq : q * (2 : Rat) ^ (2 * k) * ((2 : Rat) ^ (-k) * (2 : Rat) ^ (-k)) = q := by
+      rw [euu, mul_assoc, ← z2_add]
+      have : 2 * k + -(2 * k) = 0 := by ring
+      rw [this]; simp
+    have ht0 : 0 ≤ q * (2 : Rat) ^ (2 * k) := mul_nonneg hq (le_of_lt (z2_pos _))
+    obtain ⟨c1, c2⟩ := sqrt_bound_aux hu hB0 (isqrt_floor_sq_le ht0) htq huq hqB
+    have hs : (0 : Rat) ≤ ((isqrt (q * (2 : Rat) ^ (2 * k)).floor.toNat : Nat) : Rat) :=
+      Nat.cast_nonneg _
+    generalize ((isqrt (q * (2 : Rat) ^ (2 * k)).floor.toNat : Nat) : Rat) = s at *
+    have hs1 : 0 ≤ s * (2 : Rat) ^ (-k) := mul_nonneg hs (le_of_lt hu)
+    have hs2 : 0 ≤ (s + 1 / 2) * (2 : Rat) ^ (-k) := mul_nonneg (by linarith) (le_of_lt hu)
+    split_ifs
+    · have := f32'_le_two_mul hs1
+      linarith
+    · have := f32'_le_two_mul hs2
+      have e : 2 * ((s + 1 / 2) * (2 : Rat) ^ (-k)) = 2 * (s * (2 : Rat) ^ (-k)) + (2 : Rat) ^ (-k) := by
+        ring
+      linarith
+
+-- non-vacuity / sanity
+example : f32sqrt 1000000 ≤ 8 * 1000 :=
+  f32sqrt_le (by norm_num) (by norm_num) (by norm_num)
+
 end ColoVerif.F64
